@@ -8,6 +8,7 @@ import (
 	"sort"
 
 	"pmc/internal/checks"
+	"pmc/internal/instr"
 )
 
 func usage() {
@@ -54,6 +55,16 @@ func main() {
 			os.Exit(code)
 		}
 		os.Exit(c.Run(tier))
+	case "instr":
+		res, err := instr.Instrument(os.Args[2], os.Args[3])
+		if err != nil {
+			fmt.Fprintln(os.Stderr, err)
+			os.Exit(2)
+		}
+		b, _ := json.MarshalIndent(res, "", " ")
+		fmt.Println(string(b))
+	case "c17worker":
+		checks.C17Worker(os.Args[2:])
 	case "c18worker":
 		checks.C18Worker(os.Args[2:])
 	case "replay":
